@@ -20,72 +20,8 @@ func init() {
 }
 
 func runC19(c *eng.Ctx, thorough bool) {
-	// ---- C19.1 locked read-modify-write in UseToken
-	if f := c.Fn("vault.(*TokenStore).UseToken"); f != nil {
-		c.Clause("R9", "C19.1")
-		acquire := eng.LockCall(`LockForKey.*tokenLocks.*\.ID`, "Lock")
-		release := eng.LockCall(`LockForKey.*tokenLocks.*\.ID`, "Unlock")
-		held := eng.MustHold(f, acquire, release)
-		reread := eng.Calls(f, `vault\.\(\*TokenStore\)\.lookupInternal$`)
-		stores := eng.Calls(f, `vault\.\(\*TokenStore\)\.store$`)
-		c.Floor(f, "re-read (lookupInternal)", len(reread), 1)
-		c.Floor(f, "ts.store", len(stores), 1)
-		for _, in := range append(append([]ssa.CallInstruction{}, reread...), stores...) {
-			site := "locked{" + eng.CalleeName(in.Common()) + "}"
-			if held(in) {
-				c.OK(f, site, in.Pos(), "executes with the per-token lock (LockForKey(ts.tokenLocks, te.ID)) held on every path")
-			} else {
-				c.Violation(f, site, in.Pos(), "reachable without holding LockForKey(ts.tokenLocks, te.ID).Lock()", nil)
-			}
-		}
-		// a deferred or explicit Unlock must not precede the store: release sites must come after store on all paths
-		c.Clause("R3", "C19.1")
-		c.Before(f, "re-read under lock", eng.AsInstrs(reread), "ts.store", eng.AsInstrs(stores))
-		// the decrement's operand is the re-read entry
-		c.Clause("R5", "C19.1")
-		decs := eng.Stores(f, `\.NumUses$`)
-		c.Floor(f, "stores to NumUses", len(decs), 2)
-		for _, st := range decs {
-			fa := st.Addr.(*ssa.FieldAddr)
-			c.Prov(f, "base of NumUses store", st, fa.X, `^call:vault\.\(\*TokenStore\)\.lookupInternal#0$`)
-		}
-		for _, s := range stores {
-			c.Prov(f, "entry passed to ts.store", s, s.Common().Args[2], `^call:vault\.\(\*TokenStore\)\.lookupInternal#0$`)
-		}
-		// last use stores the pending marker
-		c.Clause("R2", "C19.1")
-		var marker []ssa.Instruction
-		for _, st := range decs {
-			if cst, ok := st.Val.(*ssa.Const); ok && cst.Int64() == -1 {
-				marker = append(marker, st)
-			}
-		}
-		c.Cut(f, "NumUses = tokenRevocationPending", marker, eng.G(f, `lookupInternal\(\)#0\.NumUses == 1$`, true), nil)
-		// success return only with store success
-		var okRets []ssa.Instruction
-		for _, r := range eng.Returns(f) {
-			vals, _, _ := eng.ReturnVals(r, 1)
-			allNil := true
-			for _, v := range vals {
-				if !eng.AllNilThroughPhi(v) {
-					allNil = false
-				}
-			}
-			ents, _, _ := eng.ReturnVals(r, 0)
-			nonNilEntry := false
-			for _, v := range ents {
-				if !eng.IsNilConst(v) {
-					if _, isParam := v.(*ssa.Parameter); !isParam {
-						nonNilEntry = true
-					}
-				}
-			}
-			if allNil && nonNilEntry {
-				okRets = append(okRets, r)
-			}
-		}
-		c.Cut(f, "return (re-read entry, nil)", okRets, eng.GCallOK(f, `vault\.\(\*TokenStore\)\.store$`), nil)
-	}
+	// ---- C19.1 locked read-modify-write in UseToken (shared with C18.4)
+	useTokenAtomic(c, "C19.1")
 
 	// ---- C19.2 counted before the verdict is acted on
 	if f := c.Fn("vault.(*Core).handleRequest"); f != nil {
@@ -222,4 +158,76 @@ func runC19(c *eng.Ctx, thorough bool) {
 			}
 		}
 	}
+}
+
+// useTokenAtomic: the use count is decremented by a locked read-modify-write.
+// Evaluated for C19.1 and, because the single use of a wrapping token is the
+// same counter, for C18.4.
+func useTokenAtomic(c *eng.Ctx, clause string) {
+	if f := c.Fn("vault.(*TokenStore).UseToken"); f != nil {
+		c.Clause("R9", clause)
+		acquire := eng.LockCall(`LockForKey.*tokenLocks.*\.ID`, "Lock")
+		release := eng.LockCall(`LockForKey.*tokenLocks.*\.ID`, "Unlock")
+		held := eng.MustHold(f, acquire, release)
+		reread := eng.Calls(f, `vault\.\(\*TokenStore\)\.lookupInternal$`)
+		stores := eng.Calls(f, `vault\.\(\*TokenStore\)\.store$`)
+		c.Floor(f, "re-read (lookupInternal)", len(reread), 1)
+		c.Floor(f, "ts.store", len(stores), 1)
+		for _, in := range append(append([]ssa.CallInstruction{}, reread...), stores...) {
+			site := "locked{" + eng.CalleeName(in.Common()) + "}"
+			if held(in) {
+				c.OK(f, site, in.Pos(), "executes with the per-token lock (LockForKey(ts.tokenLocks, te.ID)) held on every path")
+			} else {
+				c.Violation(f, site, in.Pos(), "reachable without holding LockForKey(ts.tokenLocks, te.ID).Lock()", nil)
+			}
+		}
+		// a deferred or explicit Unlock must not precede the store: release sites must come after store on all paths
+		c.Clause("R3", clause)
+		c.Before(f, "re-read under lock", eng.AsInstrs(reread), "ts.store", eng.AsInstrs(stores))
+		// the decrement's operand is the re-read entry
+		c.Clause("R5", clause)
+		decs := eng.Stores(f, `\.NumUses$`)
+		c.Floor(f, "stores to NumUses", len(decs), 2)
+		for _, st := range decs {
+			fa := st.Addr.(*ssa.FieldAddr)
+			c.Prov(f, "base of NumUses store", st, fa.X, `^call:vault\.\(\*TokenStore\)\.lookupInternal#0$`)
+		}
+		for _, s := range stores {
+			c.Prov(f, "entry passed to ts.store", s, s.Common().Args[2], `^call:vault\.\(\*TokenStore\)\.lookupInternal#0$`)
+		}
+		// last use stores the pending marker
+		c.Clause("R2", clause)
+		var marker []ssa.Instruction
+		for _, st := range decs {
+			if cst, ok := st.Val.(*ssa.Const); ok && cst.Int64() == -1 {
+				marker = append(marker, st)
+			}
+		}
+		c.Cut(f, "NumUses = tokenRevocationPending", marker, eng.G(f, `lookupInternal\(\)#0\.NumUses == 1$`, true), nil)
+		// success return only with store success
+		var okRets []ssa.Instruction
+		for _, r := range eng.Returns(f) {
+			vals, _, _ := eng.ReturnVals(r, 1)
+			allNil := true
+			for _, v := range vals {
+				if !eng.AllNilThroughPhi(v) {
+					allNil = false
+				}
+			}
+			ents, _, _ := eng.ReturnVals(r, 0)
+			nonNilEntry := false
+			for _, v := range ents {
+				if !eng.IsNilConst(v) {
+					if _, isParam := v.(*ssa.Parameter); !isParam {
+						nonNilEntry = true
+					}
+				}
+			}
+			if allNil && nonNilEntry {
+				okRets = append(okRets, r)
+			}
+		}
+		c.Cut(f, "return (re-read entry, nil)", okRets, eng.GCallOK(f, `vault\.\(\*TokenStore\)\.store$`), nil)
+	}
+
 }
